@@ -118,7 +118,7 @@ mod verif_udp {
         std::mem::forget(r);
     }
 
-    //@H name=c13_udp_adapter_write props=C05,C13,C14,C20 bound="buffer length 0..=64 bytes (the code passes pointer+length only)" fn=UdpWriteAdapter::write :: the buffered sink's adapter is a datagram writer: one send_to per write, same bytes, configured address, all-or-nothing result through the statistics
+    //@H name=c13_udp_adapter_write props=C05,C06,C07,C13,C14,C20 bound="buffer length 0..=64 bytes (the code passes pointer+length only)" fn=UdpWriteAdapter::write :: the buffered sink's adapter is a datagram writer: one send_to per write, same bytes, configured address, all-or-nothing result through the statistics
     #[kani::proof]
     #[kani::stub(std::net::UdpSocket::send_to, send_to_stub)]
     fn c13_udp_adapter_write() {
@@ -132,8 +132,8 @@ mod verif_udp {
         assert!(ADDR_OK.load(Ordering::SeqCst) == 1, "[C13] the datagram goes to the address given at construction");
         let st = snapshot(&ad.stats);
         match r {
-            Ok(w) => { assert!(ok && w == n, "[C13] the socket's byte count is returned"); assert!(st == [w as u64, 1, 0, 0], "[C14] accepted datagram counted as sent"); }
-            Err(ref e) => { assert!(!ok && e.kind() == kind, "[C07,C13] the socket's own error is returned"); assert!(st == [0, 0, m.len() as u64, 1], "[C14] refused datagram counted as dropped with its full size"); }
+            Ok(w) => { assert!(ok && w == n, "[C05,C06,C07,C13] a write is reported as accepted only when the socket accepted the datagram; the socket's byte count is returned"); assert!(st == [w as u64, 1, 0, 0], "[C14] accepted datagram counted as sent"); }
+            Err(ref e) => { assert!(!ok && e.kind() == kind, "[C06,C07,C13] a datagram the socket refused is reported as an error with the socket's own kind (the line writer and flush rely on it to surface the loss)"); assert!(st == [0, 0, m.len() as u64, 1], "[C14] refused datagram counted as dropped with its full size"); }
         }
         let before = CALLS.load(Ordering::SeqCst);
         assert!(ad.flush().is_ok() && CALLS.load(Ordering::SeqCst) == before, "[C13] the adapter's flush sends nothing");
